@@ -774,7 +774,7 @@ class X:
         h = self.intr.get(('contains', getattr(container, 'tag', type(container).__name__)))
         if h is not None:
             return h(self, st, container, item)
-        if isinstance(container, tuple) and container and container[0] == 'valmethod':
+        if isinstance(container, tuple) and container and container[0] in ('valmethod', 'accmethod'):
             # `x in d.keys()`
             return self.contains(container[1], item, st)
         raise Unsupported('in %s' % type(container).__name__)
